@@ -1,32 +1,41 @@
 #!/usr/bin/env python3
-"""copies the confirmed seeded changes from /tmp/seed_out into /verif/seeded/<id>/ (patch.diff, demo.py, meta.json)"""
+"""seeded changes: copies new ones from the sub-agents' delivery directories (/tmp/seed_out*/<Cxx>/<id>/) into /verif/seeded/<id>/
+(patch.diff, demo.py, meta.json) and refreshes 'confirmation' and 'detection' in every meta.json from the confirm.json /
+detect_<tier>.json that tools/seedtest.py wrote next to it"""
 import glob, json, os, shutil
-ROOT = '/tmp/seed_out'
 DST = os.path.join(os.path.dirname(os.path.dirname(os.path.abspath(__file__))), 'seeded')
-rows = []
-for d in sorted(glob.glob(ROOT + '/C*/C*')):
+for d in sorted(glob.glob('/tmp/seed_out*/C*/C*')):
     sid = os.path.basename(d)
     out = os.path.join(DST, sid)
+    if os.path.exists(os.path.join(out, 'meta.json')):
+        continue
     os.makedirs(out, exist_ok=True)
-    for f in ('patch.diff', 'demo.py'):
-        shutil.copy(os.path.join(d, f), os.path.join(out, f))
-    meta = json.load(open(os.path.join(d, 'meta.json')))
-    conf = json.load(open(os.path.join(d, 'confirm.json'))) if os.path.exists(os.path.join(d, 'confirm.json')) else {}
+    for f in ('patch.diff', 'demo.py', 'meta.json', 'confirm.json'):
+        if os.path.exists(os.path.join(d, f)):
+            shutil.copy(os.path.join(d, f), os.path.join(out, f))
+rows = []
+for out in sorted(glob.glob(DST + '/C*')):
+    sid = os.path.basename(out)
+    meta = json.load(open(os.path.join(out, 'meta.json')))
     meta['breaks_property'] = meta.get('property')
-    meta['confirmation'] = {
-        'what_i_ran': 'tools/seedtest.py confirm: scratch worktree of /repo HEAD %s outside /repo and /verif; demo.py without the patch (exit %s), '
-                      'git apply patch.diff, demo.py with the patch (exit %s), the repository test suite in a private network namespace (%s); worktree removed'
-                      % (conf.get('head'), conf.get('demo_without'), conf.get('demo_with'), (conf.get('suite_tail') or '').strip().split('\n')[-1]),
-        'confirmed': conf.get('confirmed'),
-    }
+    cp = os.path.join(out, 'confirm.json')
+    if os.path.exists(cp):
+        conf = json.load(open(cp))
+        meta['confirmation'] = {
+            'what_i_ran': 'tools/seedtest.py confirm: scratch worktree of /repo HEAD %s outside /repo and /verif; demo.py without the patch (exit %s), '
+                          'git apply patch.diff, demo.py with the patch (exit %s), the repository test suite in a private network namespace (%s); worktree removed'
+                          % (conf.get('head'), conf.get('demo_without'), conf.get('demo_with'), (conf.get('suite_tail') or '').strip().split('\n')[-1]),
+            'confirmed': conf.get('confirmed'),
+        }
     det = {}
     for tier in ('quick', 'thorough'):
-        p = os.path.join(d, 'detect_%s.json' % tier)
+        p = os.path.join(out, 'detect_%s.json' % tier)
         if os.path.exists(p):
             dj = json.load(open(p))
             det[tier] = {k: {'exit': v['exit'], 'violations': v['violations'], 'first': v['first'][:1], 'wall_s': v['wall_s']} for k, v in dj.get('checks', {}).items()}
-    meta['detection'] = {'what_i_ran': 'tools/seedtest.py detect: git -C /repo apply patch.diff; ./run.py <property> --tier quick; git -C /repo checkout -- .', 'result': det}
+    if det:
+        meta['detection'] = {'what_i_ran': 'tools/seedtest.py detect: git -C /repo apply patch.diff; ./run.py <property> --tier quick; git -C /repo checkout -- .', 'result': det}
     json.dump(meta, open(os.path.join(out, 'meta.json'), 'w'), indent=1)
-    rows.append((sid, conf.get('confirmed'), {k: v['exit'] for t in det.values() for k, v in t.items()}))
+    rows.append((sid, (meta.get('confirmation') or {}).get('confirmed'), {k: v['exit'] for t in det.values() for k, v in t.items()}))
 for r in rows:
     print(r)
